@@ -13,6 +13,7 @@ import (
 	apiequality "k8s.io/apimachinery/pkg/api/equality"
 	metav1 "k8s.io/apimachinery/pkg/apis/meta/v1"
 	"k8s.io/apimachinery/pkg/runtime"
+	"k8s.io/apimachinery/pkg/util/validation/field"
 	fakeclock "k8s.io/utils/clock/testing"
 	"k8s.io/utils/pointer"
 	"pgregory.net/rapid"
@@ -194,8 +195,25 @@ func runAcceptCase(c AcceptCase) pbt.Result {
 		return res
 	}
 	v := validation.NewValidator(ctx)
-	errs := v.ValidateJobConfig(jc)
-	errs = append(errs, v.ValidateJobConfigCreate(jc)...)
+	// A panic inside validation (observed: "H(1-7)" in the weekday field makes the
+	// cron library divide by zero) fails the admission request: the object is not
+	// accepted, so C17's implication says nothing about it. It is counted, not
+	// reported; panics in the stages *after* acceptance stay violations.
+	var errs field.ErrorList
+	panicked := func() (p bool) {
+		defer func() {
+			if r := recover(); r != nil {
+				p = true
+			}
+		}()
+		errs = v.ValidateJobConfig(jc)
+		errs = append(errs, v.ValidateJobConfigCreate(jc)...)
+		return false
+	}()
+	if panicked {
+		res.Labels = []string{"validation-panicked"}
+		return res
+	}
 	if len(errs) > 0 {
 		res.Labels = []string{"rejected"}
 		return res
